@@ -7,8 +7,9 @@
 (*   plan.req      companion keys that report the settings in effect          *)
 (*   plan.opt      informational companion keys it may add                    *)
 (*                                                                             *)
-(* Parse -> Refuse (-> Cleanup) | Usage | (OpenFile x2 -> InitGen -> Header* ->            *)
-(*   WriteEvent x N -> CloseEvents -> WriteStatus -> CloseInfo -> Exit)       *)
+(* Parse -> Usage | Refuse (-> Cleanup) |                                     *)
+(*   (OpenFile x2 -> InitGen -> Header* [-> Refuse] -> WriteEvent x N ->      *)
+(*    CloseEvents -> WriteStatus -> CloseInfo -> Exit)                        *)
 (* Both output streams are buffered: a produced unit becomes durable only by  *)
 (* a Flush, which may happen anywhere (also in the middle of a record, also   *)
 (* in the middle of a unit: Tear).  Crash is enabled in every live state and  *)
@@ -38,19 +39,20 @@ Alive  == Phases \ {"done", "refused", "usage", "crashed"}
 
 Units(i)    == [p \in 1..Parts |-> <<i, p>>]
 RECURSIVE AllUnits(_)
-AllUnits(k) == IF k = 0 THEN <<>> ELSE AllUnits(k - 1) \o Units(k - 1)
+AllUnits(k) == IF k <= 0 THEN <<>> ELSE AllUnits(k - 1) \o Units(k - 1)
 IsPrefix(s, t) == Len(s) <= Len(t) /\ SubSeq(t, 1, Len(s)) = s
 Range(s)    == {s[i] : i \in DOMAIN s}
 
 D0t == SubSeq(tw, 1, tdur)       \* durable content of the event file (whole units)
 D0c == SubSeq(cw, 1, cdur)       \* durable content of the companion file (whole lines)
 
-Init ==
-  /\ plan \in Plans
+Fresh ==
   /\ phase = "start" /\ n = 0
   /\ tw = <<>> /\ tdur = 0 /\ tornT = FALSE /\ openT = FALSE
   /\ cw = <<>> /\ cdur = 0 /\ tornC = FALSE /\ openC = FALSE
   /\ outcome = [rc |-> -1, msg |-> FALSE]
+
+Init == plan \in Plans /\ Fresh
 
 files == <<tw, tdur, tornT, openT, cw, cdur, tornC, openC>>
 
@@ -66,9 +68,10 @@ Usage ==
   /\ UNCHANGED <<plan, n, files>>
 
 \* A refusal: while parsing, while checking the configuration, or when the generator refuses to initialise
-\* (the files may already exist then, and are empty).  It has to be detectable: status or message.
+\* (the files may already exist then; header lines may even have been produced - the statement only forbids
+\* events and the completion marker).  It has to be detectable: status or message.
 Refuse(rc, msg) ==
-  /\ phase \in {"start", "parsed", "opened"}
+  /\ phase \in {"start", "parsed", "opened", "header"} /\ tw = <<>>
   /\ plan.verdict \in {"refuse", "unspecified"} \/ (plan.verdict = "usage" /\ phase = "start")
   /\ rc # 0 \/ msg
   /\ phase' = "refused" /\ outcome' = [rc |-> rc, msg |-> msg]
@@ -89,7 +92,7 @@ OpenFile(f) ==
   /\ UNCHANGED <<plan, n, tw, tdur, tornT, cw, cdur, tornC, outcome>>
 
 InitGen ==
-  /\ phase = "opened" /\ plan.verdict \in {"run", "unspecified"}
+  /\ phase = "opened"
   /\ phase' = "header"
   /\ UNCHANGED <<plan, n, files, outcome>>
 
@@ -100,6 +103,7 @@ Header(k) ==
 
 \* the first record is produced only once every setting has been reported
 WriteEvent ==
+  /\ plan.verdict \in {"run", "unspecified"}
   /\ phase \in {"header", "events"} /\ plan.req \subseteq Range(cw) /\ n < plan.n
   /\ tw' = tw \o Units(n) /\ n' = n + 1 /\ phase' = "events"
   /\ UNCHANGED <<plan, tdur, tornT, openT, cw, cdur, tornC, openC, outcome>>
@@ -171,8 +175,9 @@ Spec == Init /\ [][Next]_vars
 -----------------------------------------------------------------------------
 (* The statement of C13 on this machine.                                      *)
 
+PlanOK == plan \in Plans
 TypeOK ==
-  /\ plan \in Plans /\ phase \in Phases /\ n \in 0..plan.n
+  /\ phase \in Phases /\ n \in Nat /\ (n = 0 \/ n <= plan.n)
   /\ tdur \in 0..Len(tw) /\ cdur \in 0..Len(cw)
   /\ tornT \in BOOLEAN /\ tornC \in BOOLEAN /\ openT \in BOOLEAN /\ openC \in BOOLEAN
   /\ outcome.rc \in {-1, 0, 1} /\ outcome.msg \in BOOLEAN
@@ -190,13 +195,13 @@ StatusOnlyIfComplete == StatusVisible => EventFileComplete
 AlwaysPrefix == IsPrefix(tw, AllUnits(plan.n))
 
 \* "refused before any event is written": a refused or usage run has produced no byte of any record
-RefusedNoRecord == phase \in {"refused", "usage"} => (tw = <<>> /\ ~tornT /\ cw = <<>> /\ ~tornC)
+RefusedNoRecord == phase \in {"refused", "usage"} => (tw = <<>> /\ ~tornT /\ tdur = 0 /\ ~StatusVisible)
 
 \* a refusal is detectable
 RefusalDetectable == phase = "refused" => (outcome.rc # 0 \/ outcome.msg)
 
 \* a command line that must be refused never gets as far as producing anything
-MustRefuse == plan.verdict \in {"refuse", "usage"} => (tw = <<>> /\ cw = <<>>)
+MustRefuse == plan.verdict \in {"refuse", "usage"} => (tw = <<>> /\ Status \notin Range(cw))
 
 \* "the companion file reports the effective settings": once records are being produced every required key has
 \* been produced, each key once, and nothing but required / informational keys and the marker
@@ -205,10 +210,10 @@ HeaderReflects ==
   /\ Range(cw) \subseteq plan.req \cup plan.opt \cup {Status}
   /\ phase \in {"events", "closedT", "status", "closed", "done"} => plan.req \subseteq Range(cw)
 
-\* normal termination: everything there, marker last
+\* normal termination: everything there and durable, marker included
 DoneComplete ==
   phase = "done" => /\ EventFileComplete /\ cdur = Len(cw) /\ ~tornC /\ ~openC
-                    /\ cw[Len(cw)] = Status /\ outcome.rc = 0
+                    /\ Status \in Range(cw) /\ outcome.rc = 0
 
 \* durable content only grows (append-only files)
 Monotone == [][tdur' >= tdur /\ cdur' >= cdur /\ IsPrefix(tw, tw') /\ IsPrefix(cw, cw')]_vars
